@@ -362,6 +362,12 @@ Sync ==
             \* read by the harness after every application handle is gone and the system went quiet
             /\ m' = m
             /\ bad' = bad \cup (IF e.task = -3 /\ m.phase = "aborted" THEN Flag(e.n = 0, "LeftoverOpenConnections") ELSE {})
+       [] e.op = "conn_stats" ->
+            \* (logged when a task lets go of its Connection) the in-memory network of this run neither
+            \* lost, duplicated nor reordered anything - in whatever batches it handed datagrams over -
+            \* so loss detection has found nothing lost
+            /\ m' = m
+            /\ bad' = bad \cup Flag((m.cfg.lossless /\ m.cfg.ordered /\ ~m.cfg.dup) => e.n = 0, "PacketLostOnCleanNetwork")
        [] OTHER -> m' = m /\ bad' = bad
   /\ UNCHANGED cur /\ l' = l + 1
 
